@@ -63,6 +63,42 @@ class Ret:
         return out
 
 
+def split_returns(o, it, data):
+    """A return whose object component is a conditional over several
+    objects (a helper's joined result) is split into one virtual return per
+    object, each with the knowledge of its arm (the facts of each arm were
+    kept as implications at the join and fire when the guard is assumed)."""
+    v = o.value
+    if not (isinstance(v, tuple) and len(v) == 3 and isinstance(v[2], Sym)
+            and v[2].op == 'cond'):
+        return [Ret(o, it, data)]
+    leaves = []
+
+    def walk(t, guards):
+        if isinstance(t, Sym) and t.op == 'cond' and len(leaves) < 16:
+            walk(t.args[1], guards + [t.args[0]])
+            walk(t.args[2], guards + [T.not_(t.args[0])])
+        else:
+            leaves.append((guards, t))
+    walk(v[2], [])
+    out = []
+    for guards, leaf in leaves:
+        st = o.state.fork()
+        feasible = True
+        for g in guards:
+            if not st.kn.assume(g):
+                feasible = False
+                break
+        if not feasible:
+            continue
+        n = T.simplify(v[0], st.kn) if isinstance(v[0], Sym) else v[0]
+        ch = T.simplify(v[1], st.kn) if isinstance(v[1], Sym) else v[1]
+        from .interp import Outcome
+        out.append(Ret(Outcome('return', st, value=(n, ch, leaf)), it,
+                       data))
+    return out or [Ret(o, it, data)]
+
+
 class HeaderView:
     """The envelope header as read by the decoder."""
 
@@ -94,8 +130,10 @@ class UnmarshalFacts:
         self.data = codec.buf('data_in')
         self.pol.data = self.data
         self.it, self.outs, _ = L.run_unmarshal(ctx, self.pol, self.data)
-        self.rets = [Ret(o, self.it, self.data) for o in self.outs
-                     if o.kind == 'return']
+        self.rets = []
+        for o in self.outs:
+            if o.kind == 'return':
+                self.rets.extend(split_returns(o, self.it, self.data))
         self.raises = [o for o in self.outs if o.kind == 'raise']
         self.header = self.find_header()
 
@@ -210,7 +248,7 @@ def validation_on_receive(ctx):
     runs = [UnmarshalFacts(ctx, None)] + [
         UnmarshalFacts(ctx, k, assume_type=1) for k in keys]
     for f in runs:
-        for callee, chain, _seq in f.it.calls:
+        for callee, chain, _seq, _d in f.it.calls:
             name = callee.split(' ')[0]
             if not name.endswith('.validate'):
                 continue
